@@ -1536,8 +1536,14 @@ def judge_smtp(ctx, runs):
             ctx.count('smtp-connections-reached-bound')
         if len([s for s in ctx.samples if s.get('case', {}).get('kind') == 'smtp']) < 2 and nontrivial:
             ctx.sample(dict(case=case, wire={str(c): [list(x) for x in log] for c, log in r['wirelog'].items()}))
+        not_atomic = any(key == 'c19:pool-check-and-add-not-atomic' for key, what in r['fails'])
         for key, what in r['fails']:
+            if r['cfg'].get('ehlo_as') == 'none' and key in ('c19:pool-exceeds-bound', 'c19:connections-exceed-bound', 'c19:pool-check-and-add-not-atomic'):
+                # the default EHLO name: SmtpRelayClient.__init__ calls socket.getfqdn(), cooperative under gevent
+                key = 'c19:pool-bound-default-ehlo-getfqdn-yields'
             ctx.fail(key, case, what)
+        if not_atomic:
+            continue      # the model's attempt()/exit steps are atomic; outside that assumption there is nothing to compare
         validate_trace(ctx, 'smtp-pool-trace', case, None, r['raw'], mouts[i])
     ACT = {'enterpoll': 0, 'poll': 1, 'idle': 2, 'done': 3, 'requeue': 4, 'giveup': 5}
     for (i, c), so in zip(sidx, souts):
